@@ -135,7 +135,7 @@ def _bigset(n):
     return ('set', tuple(i(2 * k) for k in range(1, n + 1)))
 
 
-_BK = [0, 2, 7, 16, 18, 34, 40, 41, 100]     # below all, first, absent in the middle, present, last of 9, last of 17, last of 20, above, far above
+_BK = [0, 2, 7, 16, 18, 34, 40, 41, 52, 80, 100]     # below all, first, absent in the middle, present, last of 9, last of 17, last of 20, above, present in / last of 40, far above
 _mops, _sops = [], []
 for _k in _BK:
     _mops += [('SEQ', (PUSH(OPT(STR), some(s('n'))), PUSH(INT, i(_k)), ('UPDATEK',))), ('SEQ', (PUSH(OPT(STR), none), PUSH(INT, i(_k)), ('UPDATEK',))),
@@ -145,8 +145,8 @@ for _k in _BK:
               ('SEQ', (DUP(1), PUSH(INT, i(_k)), ('MEM',), ('SWAP',)))]
 _mops += [('SEQ', (DUP(1), ('SIZE',), ('SWAP',))), ('SEQ', (DUP(1), ('NIL', P(INT, STR)), ('SWAP',), ('ITER', (('CONS',),)), ('SWAP',))), ('MAP', (('CDR',), ('SIZE',)))]
 _sops += [('SEQ', (DUP(1), ('SIZE',), ('SWAP',))), ('SEQ', (DUP(1), ('NIL', INT), ('SWAP',), ('ITER', (('CONS',),)), ('SWAP',)))]
-fam('bigmap', depth=2, maxstack=3, inits=[(S(MAP(INT, STR), _bigmap(n)),) for n in (9, 17, 20)], alphabet=_mops)
-fam('bigset', depth=2, maxstack=3, inits=[(S(SET(INT), _bigset(n)),) for n in (9, 17, 20)], alphabet=_sops)
+fam('bigmap', depth=2, maxstack=3, inits=[(S(MAP(INT, STR), _bigmap(n)),) for n in (9, 17, 20, 40)], alphabet=_mops)
+fam('bigset', depth=2, maxstack=3, inits=[(S(SET(INT), _bigset(n)),) for n in (9, 17, 20, 40)], alphabet=_sops)
 
 # every value instruction also below the top of the stack: DIP n { I } on x1 .. xn : S  =  x1 .. xn : (I on S).  An implementation that addresses the
 # stack by absolute position somewhere (instead of relative to the protected prefix) is right at the top and wrong here
